@@ -19,16 +19,16 @@ class Problem:
         n = self.n
         v = 0.5 * sum(x[i] * sum(self.Q[i][j] * x[j] for j in range(n)) for i in range(n))
         v += sum(self.c[i] * x[i] for i in range(n))
-        v += sum(self.w[i] * x[i] ** 4 / 4 for i in range(n))
+        v += sum(self.w[i] * (x[i] * x[i]) * (x[i] * x[i]) / 4 for i in range(n))
         return v
 
     def grad_f(self, x):
         n = self.n
-        return [sum(self.Q[i][j] * x[j] for j in range(n)) + self.c[i] + self.w[i] * x[i] ** 3 for i in range(n)]
+        return [sum(self.Q[i][j] * x[j] for j in range(n)) + self.c[i] + self.w[i] * (x[i] * x[i] * x[i]) for i in range(n)]
 
     def g(self, x):
         n = self.n
-        return [sum(self.A[i][j] * x[j] for j in range(n)) + self.d[i] * x[i % n] ** 2 for i in range(self.m)]
+        return [sum(self.A[i][j] * x[j] for j in range(n)) + self.d[i] * (x[i % n] * x[i % n]) for i in range(self.m)]
 
     def grad_g_prod(self, x, y):
         n = self.n
